@@ -350,40 +350,80 @@ def guard_inventory(repo: Repo, R, noret):
 
     # --- missing / extra connection
     fi = repo.func(F_CONNT, "ConnTypes.check_instance")
-    env = au.local_env(fi.node)
+    from . import shared as _sh
     defs = au.local_defs(fi.node)
-    loops = [n for n in au.walk_no_nested(fi.node) if isinstance(n, ast.For)]
+    # by dataflow: the collection whose non-emptiness fails the pass, and what flows into it (directly, or through an
+    # intermediate table and a filtering comprehension)
+    sink = None
+    for n in _ifs(fi):
+        if isinstance(n.test, ast.Name) and (au.raises(n.body, noret) != au.raises(n.orelse, noret)) and au.raises(n.body, noret):
+            sink = n.test.id
+    contents = _sh.container_contents(fi.node, sink) if sink else []
     io_loop = None
-    for lp in loops:
+    for lp in [n for n in au.walk_no_nested(fi.node) if isinstance(n, ast.For)]:
         it = au.expand(lp.iter, defs, depth=2)
         if "io_for_checking" in ast.unparse(it) and ast.unparse(lp.iter).endswith(".items()"):
             io_loop = lp
-    ok_missing = ok_extra = ok_compat = False
+    pn = ast.unparse(io_loop.target.elts[0]) if io_loop is not None and isinstance(io_loop.target, ast.Tuple) else None
+    pv = ast.unparse(io_loop.target.elts[1]) if io_loop is not None and isinstance(io_loop.target, ast.Tuple) else None
     conns_copy = None
     if io_loop is not None:
-        pn = ast.unparse(io_loop.target.elts[0]) if isinstance(io_loop.target, ast.Tuple) else None
-        for c, b in pat.find(f"$C.pop({pn}, None)", io_loop):
+        for c, b in pat.find(f"$C.pop({pn}, None)", io_loop) + pat.find(f"$C.pop({pn})", io_loop):
             conns_copy = ast.unparse(b["C"])
-        for n in ast.walk(io_loop):
-            if isinstance(n, ast.If) and _norm(n.test).endswith("is None"):
-                ok_missing = bool(pat.find(f"statuses[{pn}] = Unconnected({pn})", ast.Module(n.body, [])))
-                ok_compat = bool(pat.find(f"statuses[{pn}] = self.check_compatible($P, $C)", ast.Module(n.orelse, [])))
+
+    def only_valid_filter(v, conds):
+        """beyond the conditions that select the producing case, the value is kept unless it is a Valid status"""
+        vt = ast.unparse(v)
+        for t, pol in conds:
+            tt = ast.unparse(t)
+            if vt in tt:
+                if not ((tt == f"isinstance({vt}, Valid)" and pol is False) or (tt == f"not isinstance({vt}, Valid)" and pol is True)):
+                    return False
+        return True
+
+    def flows(pattern, need_cond=None):
+        for k, v, conds in contents:
+            b = pat.match(pattern, v)
+            if b is None:
+                continue
+            if not only_valid_filter(v, conds):
+                continue
+            if need_cond is not None and not need_cond(b, k, conds):
+                continue
+            return True
+        return False
+
+    # the popped connection, as the dataflow shows it: through the local name of the copy, or with the copy written out
+    ccs = [conns_copy, ast.unparse(defs[conns_copy])] if conns_copy and conns_copy in defs else [conns_copy]
+    pops = [f"{c_}.pop({pn}{d_})" for c_ in ccs for d_ in (", None", "")]
+
+    def conn_is_none(pol):
+        def f(b, k, conds):
+            for t, p_ in conds:
+                tt = ast.unparse(t)
+                if tt in [f"{x} is None" for x in pops] and p_ == pol:
+                    return k is not None and ast.unparse(k) == pn
+            return False
+        return f
+
+    ok_missing = conns_copy is not None and flows(f"Unconnected({pn})", conn_is_none(True))
+    ok_compat = conns_copy is not None and any(flows(f"self.check_compatible({pv}, {x})", conn_is_none(False)) for x in pops)
+    ok_extra = False
+    copy_ok = False
     if conns_copy:
         src = defs.get(conns_copy)
         copy_ok = src is not None and ast.unparse(src) in ("copy.copy(inst.conns)", "dict(inst.conns)", "copy(inst.conns)", "inst.conns.copy()")
-        for lp in loops:
-            if ast.unparse(lp.iter) in (f"{conns_copy}.keys()", conns_copy, f"list({conns_copy})", f"{conns_copy}.items()"):
-                ok_extra = bool(pat.find("statuses[$K] = NoPort($K)", lp))
-    else:
-        copy_ok = False
-    R.check(ok_missing, rule, key_of(fi, "missing-connection"), fi.site, f"every io port without a connection gets an Unconnected status: {ok_missing}", why="an instance with a missing port connection is exported")
-    R.check(ok_compat, rule, key_of(fi, "each-port-checked"), fi.site, f"every connected io port is passed to check_compatible(port, conn): {ok_compat}", why="connections are not type/width checked")
+        for lp in [n for n in au.walk_no_nested(fi.node) if isinstance(n, ast.For)]:
+            if ast.unparse(lp.iter) in (f"{conns_copy}.keys()", conns_copy, f"list({conns_copy})", f"{conns_copy}.items()") and _sh.precedes(fi.node, io_loop, lp):
+                kvar = ast.unparse(lp.target.elts[0] if isinstance(lp.target, ast.Tuple) else lp.target)
+                ok_extra = flows(f"NoPort({kvar})", lambda b, k, conds: k is not None and ast.unparse(k) == kvar)
+    R.check(ok_missing, rule, key_of(fi, "missing-connection"), fi.site, f"every io port without a connection yields an Unconnected status that reaches the failing collection `{sink}`: {ok_missing}", why="an instance with a missing port connection is exported")
+    R.check(ok_compat, rule, key_of(fi, "each-port-checked"), fi.site, f"every connected io port is passed to check_compatible(port, conn), and its status reaches `{sink}`: {ok_compat}", why="connections are not type/width checked")
     R.check(ok_extra and copy_ok, rule, key_of(fi, "extra-connection"), fi.site,
-            f"connections left over after popping every io port get a NoPort status: {ok_extra}; popped from a copy of conns (not the live dict): {copy_ok}",
+            f"connections left over after popping every io port yield a NoPort status that reaches `{sink}`: {ok_extra}; popped from a copy of conns (not the live dict): {copy_ok}",
             why="a connection to a non-existent port is exported (or checking empties the instance's real connections)")
-    flt = bool(pat.find("{$N: $S for $N, $S in statuses.items() if not isinstance($S, Valid)}", fi.node))
-    g = has_guard(fi, lambda t: _norm(t) == "bad_conns", noret)
-    R.check(flt and g is not None, rule, key_of(fi, "any-bad-fails"), fi.site, f"all non-Valid statuses are collected ({flt}) and any of them fails the pass ({g is not None})", why="a bad connection status is computed and ignored")
+    total_io = io_loop is not None and not any(isinstance(x, (ast.Break, ast.Continue, ast.Return)) for x in ast.walk(io_loop))
+    R.check(sink is not None and total_io, rule, key_of(fi, "any-bad-fails"), fi.site, f"the statuses that are not Valid are collected in `{sink}`, and any of them fails the pass ({sink is not None}); every io port is looked at ({total_io})", why="a bad connection status is computed and ignored")
     fe = repo.func(F_CONNT, "ConnTypes.elaborate_module")
     tot = any(isinstance(n, ast.For) and ast.unparse(n.iter) == "module.instances.values()" and bool(pat.find("self.check_instance(module, $I)", n)) and not any(isinstance(x, (ast.Break, ast.Continue, ast.Return)) for x in ast.walk(n)) for n in au.walk_no_nested(fe.node))
     R.check(tot, rule, key_of(fe), fe.site, f"ConnTypes checks every instance of the module: {tot}", why="some instances are not checked")
